@@ -250,6 +250,23 @@ def check_case(case, ctx):
         undetermined = 1
         if exact_val - 1e-4 <= sol.objective_value <= exact_hi + 1e-4:
             return {"nontrivial": False, "classes": classes + ["room-band-edge"], "undetermined": 1}
+    # A reference flux that misses a bound of its reaction by round-off (1.0000000000000002 with an upper bound of 1) puts a
+    # coefficient of the order 1e-16 into a ROOM row: the LP handed to the solver is then ill-conditioned and GLPK may
+    # stop at a vertex that is not optimal (seen: 0.17 instead of 4e-17). The statement cannot be decided by comparing
+    # with the exact optimum there; feasibility and the lower side are still checked.
+    bounds_ko = {r["id"]: (r["lb"], r["ub"]) for r in spec_ko["rxns"]}
+    d_, e_ = (0, 0) if method == "room_linear" else (delta, eps)
+    illcond = False
+    for rid in rids:
+        w = reference[rid]
+        for coef in (bounds_ko[rid][1] - (w + d_ * abs(w) + e_), bounds_ko[rid][0] - (w - d_ * abs(w) - e_)):
+            if 0 < abs(coef) < 1e-9 * max(1.0, abs(w)):
+                illcond = True
+    if illcond:
+        lo = exact_lo if exact_lo is not None else exact_val
+        if sol.objective_value < lo - 1e-4 * max(1.0, lo):
+            _v("room:below-minimum", f"{method}: reported objective {sol.objective_value!r} is below the exact minimum {lo} of the relaxed bands")
+        return {"nontrivial": False, "classes": classes + ["room-reference-off-bound-by-roundoff"], "undetermined": 1}
     if method == "room_linear" and exact_lo is not None and exact_val - exact_lo > 1e-4 * max(1.0, exact_val):
         if exact_lo - 1e-4 <= sol.objective_value <= exact_val + 1e-4:
             return {"nontrivial": False, "classes": classes + ["room-linear-reference-on-bound-roundoff"], "undetermined": 1}
